@@ -40,7 +40,9 @@ ASSUMPTIONS = [
     "a grid location computed twice in one compute is recorded as a class, not a violation (the property does not forbid recomputation)",
     "the KF-layout-drift-over-shuffle region predicate is extended in-process to the composite swv_reduce statement (same defect, same region)",
 ]
-EXCLUDE = ("KF-layout-drift-over-shuffle", "KF-minmax-empty", "KF-pad-wide", "KF-tensordot-int-dtype", "KF-argext-ties-axis-none")
+from vf import exclusions as _ex
+
+EXCLUDE = _ex.ALL  # every program-level region of a listed open finding
 WEIGHTS = {
     "map_blocks_info": 26,
     "window_reduce": 9,
